@@ -6,7 +6,7 @@
    the client that popped it is stored inside it, so "the poll that was handed that client's offer"
    is the entry holding the client. Proofs: Proofs/BrokerProofs.v, BrokerSteps.v, BrokerThms.v. *)
 From Coq Require Import List NArith ZArith Bool.
-From Snow Require Import Model.Broker Proofs.BrokerProofs Proofs.BrokerSteps Proofs.BrokerThms Proofs.BrokerHist.
+From Snow Require Import Model.Broker Proofs.BrokerProofs Proofs.BrokerSteps Proofs.BrokerThms Proofs.BrokerHist Proofs.BrokerUrlHist.
 Import ListNotations.
 Open Scope N_scope.
 
@@ -63,10 +63,59 @@ Theorem C02_client_checked : forall v s n ofp o p s',
     bridges s' = bridges s.
 Proof. exact client_checked. Qed.
 
-(* A match response carries the offer and NAT type of the client that claimed this poll, and a relay URL that an
-   installed list configures for the fingerprint that client named; it is the URL of the list installed at the time
-   of the client's request unless a list was installed after that request (the handler looks the URL up when it
-   replies: see C02_reinstall_witness). *)
+(* The current list is the newest installed one (the head of the ghost history) ... *)
+Theorem C02_current_list_is_newest : forall v br s, reachable v br s -> nth_error (br_hist s) 0 = Some (bridges s).
+Proof. exact current_list_is_newest. Qed.
+
+(* ... and what the positions of the history mean: in any state s' reached from a reachable state s the history is
+   the lists installed since s (newest first) followed by the history of s, so position
+   [length (br_hist s') - length (br_hist s)] holds the list that was current in s, and the positions up to it hold
+   exactly that list and the lists installed after s. Take for s the state of a client's request
+   (C02_client_checked: c_epoch c = length (br_hist s)). *)
+Theorem C02_lists_since : forall v br s ls s', reachable v br s -> run v s ls = Some s' ->
+  exists newer, br_hist s' = newer ++ br_hist s /\
+    List.length newer = (List.length (br_hist s') - List.length (br_hist s))%nat /\
+    nth_error (br_hist s') (List.length newer) = Some (bridges s).
+Proof. exact lists_since. Qed.
+
+(* A match response carries the offer and NAT type of the client that claimed this poll, and a relay URL that a list
+   installed NOT BEFORE the client's request configures for the fingerprint that client named: the list the URL
+   was looked up in sits at a position i <= length (br_hist s) - c_epoch c of the history, i.e. it is the list that
+   was current at the client's request or one installed after it - never an older one (the stale URL). The list at
+   that very position is the one the client was checked against (it configures c_url c), and when no list was
+   installed in between (c_epoch c = length (br_hist s)) the URL handed out is that URL. The handler looks the URL
+   up when it replies, hence "or later": see C02_reinstall_between_request_and_forward. *)
+Theorem C02_relay_url_not_older_than_request : forall v br s p e m,
+  reachable v br s -> nth_error (entries s) p = Some e -> e_w e = W_Done (PMatch m) ->
+  exists c, e_cl e = Some c /\ m_offer m = c_offer c /\ m_nat m = c_nat c /\
+    (c_epoch c <= List.length (br_hist s))%nat /\
+    (exists b0, nth_error (br_hist s) (List.length (br_hist s) - c_epoch c) = Some b0 /\
+                lookup (c_fp c) b0 = Some (c_url c)) /\
+    (exists i b, (i <= List.length (br_hist s) - c_epoch c)%nat /\ nth_error (br_hist s) i = Some b /\
+                 lookup (c_fp c) b = Some (m_url m)) /\
+    (c_epoch c = List.length (br_hist s) -> m_url m = c_url c).
+Proof. exact match_response_since_request. Qed.
+
+(* The same over histories, with no reference to the ghost fields: in any history from the empty broker, a poll that
+   returned a match m was handed it by a step L_RvForward p OF THE HISTORY; the URL is what the list current at that
+   step configures for the fingerprint the client named; that client's accepted request L_Client n ofp o (Some p) comes
+   EARLIER in the history (and was accepted against the list current then: its fingerprint was in it); offer and NAT
+   type are the request's. So the list the URL is taken from is the one current at the request or one installed after
+   it (C02_lists_since applied to sreq and the run up to sfwd), never one replaced before the request. *)
+Theorem C02_relay_url_history : forall v br ls s p e m,
+  run v (init br) ls = Some s -> nth_error (entries s) p = Some e -> e_w e = W_Done (PMatch m) ->
+  exists pre n ofp o mid post sreq sfwd,
+    ls = pre ++ L_Client n ofp o (Some p) :: mid ++ L_RvForward p :: post /\
+    run v (init br) pre = Some sreq /\
+    run v (init br) (pre ++ L_Client n ofp o (Some p) :: mid) = Some sfwd /\
+    m_offer m = o /\ m_nat m = n /\
+    lookup (fp_of ofp) (bridges sreq) <> None /\
+    lookup (fp_of ofp) (bridges sfwd) = Some (m_url m).
+Proof. exact relay_url_history. Qed.
+
+(* The weaker form (a corollary, kept for its name): some installed list configures the URL. Its first existential
+   ranges over the whole history, so alone it would allow a URL from a list older than the request once any list was
+   installed after it; C02_relay_url_not_older_than_request excludes that. *)
 Theorem C02_relay_url : forall v br s p e m,
   reachable v br s -> nth_error (entries s) p = Some e -> e_w e = W_Done (PMatch m) ->
   exists c, e_cl e = Some c /\ m_offer m = c_offer c /\ m_nat m = c_nat c /\
@@ -152,6 +201,24 @@ Proof.
   - eexists; eexists; eexists; eexists. vm_compute. repeat split. apply le_n.
   - eexists; eexists. vm_compute. repeat split.
 Qed.
+
+(* non-vacuity of C02_relay_url_not_older_than_request with installations on both sides of the request: the list
+   [(7,8)] is replaced by [(7,9)] BEFORE the client's request (epoch 2), and by [(7,10)] and then [(7,11)] between
+   the request and the forward. History, newest first: [(7,11)]; [(7,10)]; [(7,9)]; [(7,8)]. The list at the request
+   sits at position 4 - 2 = 2 and configures c_url = 9; the URL handed out is 11, from position 0 <= 2; the older
+   list at position 3 (URL 8, the stale one) is out of range although it, too, is "an installed list" and the
+   disjunct c_epoch c < length of C02_relay_url holds. The run also has the shape C02_relay_url_history finds:
+   pre = [L_Install; L_Poll], the request, mid = [L_Install; L_RvOffer; L_Install], the forward. *)
+Example C02_reinstall_between_request_and_forward :
+  exists s e c m, run V1 (init [(7, 8)])
+     [L_Install [(7, 9)]; L_Poll 1 NatUnrestricted 1 0; L_Client NatRestricted (Some 7) 100 (Some 0%nat);
+      L_Install [(7, 10)]; L_RvOffer 0; L_Install [(7, 11)]; L_RvForward 0] = Some s /\
+     nth_error (entries s) 0 = Some e /\ e_cl e = Some c /\ e_w e = W_Done (PMatch m) /\
+     br_hist s = [[(7, 11)]; [(7, 10)]; [(7, 9)]; [(7, 8)]] /\ c_epoch c = 2%nat /\
+     nth_error (br_hist s) (List.length (br_hist s) - c_epoch c) = Some [(7, 9)] /\ c_url c = 9 /\
+     m_url m = 11 /\ nth_error (br_hist s) 0 = Some [(7, 11)] /\
+     nth_error (br_hist s) 3 = Some [(7, 8)] /\ lookup (c_fp c) [(7, 8)] = Some 8 /\ m_url m <> 8.
+Proof. eexists; eexists; eexists; eexists. vm_compute. repeat split. intro H. vm_compute in H. discriminate H. Qed.
 
 (* non-vacuity of the history statements: the run of C02_example has the shape required by
    C02_poll_gets_at_most_one_offer (two accepted matches, polls 0 and 1) and contains the answer requests that
